@@ -461,6 +461,21 @@ def gen_case(rng, kind, eq=True):
         cfg["range"] = rng.choice([(lo, hi), (lo, 0), (0, hi)])
         if rng.random() < 0.3:
             cfg["depth"] = rng.choice([1, 2, 3])
+    if kind == "range_only":
+        # the case splits of Range.v: nothing / something before, inside, after the window; ends on exact
+        # timestamps (both included); window starting with an ENTRY or with an EXIT; empty window
+        ts = sorted(set([c.t0 for c in calls] + [c.t1 for c in calls]))
+        first, last = ts[0], ts[-1]
+        a, bnd = sorted([rng.choice(ts), rng.choice(ts)])
+        cfg["range"] = rng.choice([(a, bnd), (a, a), (a + 1, bnd - 1) if a + 1 <= bnd - 1 else (a, bnd), (first, bnd),
+                                   (a, last), (first - 5, last + 5), (last + 1, last + 50), (1, first - 1), (a, 0),
+                                   (0, bnd), (a - 1, bnd + 1)])
+        tags.append("range:" + ("empty" if not [t for t in ts if (not cfg["range"][0] or t >= cfg["range"][0])
+                                                  and (not cfg["range"][1] or t <= cfg["range"][1])] else "nonempty"))
+        for t in ts:
+            if t in cfg["range"]:
+                tags.append("range:end-on-timestamp")
+                break
     if kind in ("pltleaf", "plt"):
         cfg["libcall"] = False
         leafs = sorted(set(c.k for c in calls if not c.kids) - set(c.k for c in calls if c.kids))
@@ -504,7 +519,7 @@ def gen_case(rng, kind, eq=True):
 
 
 KINDS = ["plain", "depth", "filter", "notrace", "fn", "fd", "time", "timetrig", "caller", "caller_time", "hide",
-         "deptrig", "fdt", "mix", "mix2", "switch", "range", "pltleaf", "plt"]
+         "deptrig", "fdt", "mix", "mix2", "switch", "range", "range_only", "pltleaf", "plt"]
 
 
 # ---------------------------------------------------------------- meta
